@@ -64,11 +64,35 @@ type ZTimes struct {
 	Ts []time.Time
 }
 
+type ZTimePtr struct {
+	A int32
+	P *time.Time
+	Q *time.Time
+}
+
 // H_C10_positions: instants in a struct field, in []time.Time and at top level; the zero time in a field.
 func H_C10_positions() {
 	vArith(1)
 	t, sub := vInstant()
-	switch vChoice("where", 7) {
+	switch vChoice("where", 9) {
+	case 7: // the instant reaches the encoder behind a pointer
+		vAssume(!t.IsZero())
+		bs, err := ToBytes(&t, nil)
+		vAssert("encode-noerr", err == nil)
+		out, err := ToObject(bs, nil)
+		g, ok := out.(time.Time)
+		vAssert("decode", err == nil && ok)
+		vCheckInstant("top-pointer", t, g, sub)
+	case 8: // a *time.Time field (the second one nil)
+		vAssume(!t.IsZero())
+		v := &ZTimePtr{A: 1, P: &t}
+		tm, nm := vExtract(v)
+		bs, err := ToBytes(v, nm)
+		vAssert("encode-noerr", err == nil)
+		out, err := ToObject(bs, tm)
+		g, ok := out.(*ZTimePtr)
+		vAssert("decode", err == nil && ok && g != nil && g.A == 1 && g.P != nil && g.Q == nil)
+		vCheckInstant("pointer-field", t, *g.P, sub)
 	case 6:
 		// zero timestamps between non-zero ones in a []time.Time field, sent without a registered list name
 		// (the list then travels untyped and is converted element by element on the way back)
